@@ -706,6 +706,35 @@ def rule_p3(F):
                     r.inst("suffix " + suf, {"suffix": suf, "type": sorted(tys)})
                     if tys and tys != {suf.upper()}:
                         r.bad(sb.path, "suffix " + suf, relfile(sb.file), row["line"], "literal suffix `%s` selects %s" % (suf, sorted(tys)))
+    if sb:
+        # .. or be written as `const` arrays of (suffix, type) pairs searched with `find(|(name, _)| *name == suffix)`
+        fam = hir.with_callees(F, sb, depth=2, same_file=True)
+        consts = {}
+        for fb_ in fam:
+            for n in hir.walk(fb_.hir["value"]):
+                d_ = hir.res_def(n) if n.get("k") == "path" else None
+                cb_ = F.body(d_) if d_ and "parser::expr" in d_ and F.has(d_) else None
+                if cb_ is not None and cb_.hir and cb_.def_kind.startswith("Const"):
+                    consts[d_] = cb_
+        eq_search = any(m_["m"] in ("find", "find_map", "position") and m_["args"] and hir.strip(m_["args"][0]).get("k") == "closure"
+                        and hir.strip(hir.strip(m_["args"][0]).get("body") or {}).get("k") == "bin" and hir.strip(hir.strip(m_["args"][0])["body"]).get("op") == "=="
+                        for fb_ in fam for m_ in hir.nodes(fb_.hir["value"], "mcall"))
+        for d_, cb_ in sorted(consts.items()):
+            for arr in hir.nodes(cb_.hir["value"], "array"):
+                for e in arr["elems"]:
+                    e = hir.strip(e)
+                    if not (e.get("k") == "tup" and len(e.get("elems") or []) == 2):
+                        continue
+                    a_, b_ = [hir.strip(x) for x in e["elems"]]
+                    td = hir.res_def(b_) if b_.get("k") == "path" else None
+                    if not (a_.get("k") == "lit" and isinstance(a_.get("v"), str) and re.match(r"^[iuf]\d+$", a_["v"]) and td and ("IntType::" in td or "FloatType::" in td)):
+                        continue
+                    suf = a_["v"]
+                    r.inst("suffix " + suf, {"suffix": suf, "type": [hir.last(td)], "table": d_, "searched_by_equality": eq_search})
+                    if hir.last(td) != suf.upper():
+                        r.bad(cb_.path, "suffix " + suf, relfile(cb_.file), e.get("line") or cb_.line, "literal suffix `%s` selects %s" % (suf, hir.last(td)))
+                    if not eq_search:
+                        r.bad(cb_.path, "suffix " + suf, relfile(cb_.file), e.get("line") or cb_.line, "the suffix table is not searched by comparing the whole suffix with `==`")
     # IntType / FloatType -> type name used by the type checker
     lb = None
     for p in F.paths():
